@@ -5,6 +5,8 @@ use rt::tok::{Tok1, Tok16, Tok64, Tok8, TokZ};
 
 use crate::hist_sized::SizedEngine;
 use crate::sched::SchedEngine;
+use crate::hist_thin::ThinEngine;
+use rt::tok::{Tok4, Tok8b};
 use crate::FLAVOUR;
 
 fn job<E: rt::run::Engine + 'static>(e: E, cases: u64, flavour: &'static str) -> Job {
@@ -24,6 +26,18 @@ fn sized_jobs(prop: &str, max_ops: usize, cases: u64, flavours: &[&'static str])
     v
 }
 
+/// the thin-world engines over three header/element alignment relations
+fn thin_jobs(prop: &'static str, max_ops: usize, cases: u64, flavours: &[&'static str]) -> Vec<Job> {
+    let mut v = vec![];
+    for fl in flavours {
+        v.push(job(ThinEngine::<Tok8b, Tok8>::new(prop, max_ops), cases, fl));
+        v.push(job(ThinEngine::<Tok1, Tok16>::new(prop, max_ops), cases / 2, fl));
+        v.push(job(ThinEngine::<Tok16, Tok1>::new(prop, max_ops), cases / 2, fl));
+        v.push(job(ThinEngine::<Tok4, Tok4>::new(prop, max_ops), cases / 2, fl));
+    }
+    v
+}
+
 pub fn plan(prop: &str, tier: Tier) -> Option<Plan> {
     let q = tier == Tier::Quick;
     let both: &[&'static str] = &["all", "nostd"];
@@ -33,13 +47,21 @@ pub fn plan(prop: &str, tier: Tier) -> Option<Plan> {
             "exploration",
             "proptest-generated histories (4-byte op records: opcode via the 'lifecycle' weight table, slot, variant, extra) over a pool of <=12 handles of all kinds; the reference model (owners per allocation) and the tracking allocator + Tok registry are compared after every step and at teardown. Non-trivial: some allocation was owned through >=2 different handle kinds, the history contains >=1 conversion or borrow accessor, and the last owner released was of a different kind than the creating handle. distinct = by hash of the case bytes.".into(),
             vec!["payload classes are witnesses (Tok shapes align 1/8/16/64 and a ZST), not all types".into(), "single-threaded histories (schedules are C02)".into()],
-            sized_jobs("C01", if q { 48 } else { 160 }, if q { 6000 } else { 120_000 }, both),
+            {
+                let mut v = sized_jobs("C01", if q { 48 } else { 160 }, if q { 6000 } else { 120_000 }, both);
+                v.extend(thin_jobs("C01", if q { 40 } else { 128 }, if q { 3000 } else { 60_000 }, both));
+                v
+            },
         ),
         "C04" => (
             "exploration",
             "proptest-generated histories with the 'counts' weight table; after every step every count accessor of every slot (Arc::count, strong_count on Arc/OffsetArc/ArcBorrow/ArcUnion/ArcUnionBorrow, through from_ptr for raw pointers, through ArcSwap::load) is compared with the model's owner count, and counts are also read inside with_arc / with_raw_offset_arc / ArcBorrow::with_arc callbacks. Non-trivial: >=3 distinct handle kinds had their accessors evaluated at a count >=3 on an allocation that has (had) a raw-pointer or union owner, and >=1 count was read inside a callback at count >=3.".into(),
             vec!["UniqueArc has no count accessor; its count is observed after shareable()".into()],
-            sized_jobs("C04", if q { 48 } else { 160 }, if q { 6000 } else { 120_000 }, both),
+            {
+                let mut v = sized_jobs("C04", if q { 48 } else { 160 }, if q { 6000 } else { 120_000 }, both);
+                v.extend(thin_jobs("C04", if q { 40 } else { 128 }, if q { 3000 } else { 60_000 }, both));
+                v
+            },
         ),
         "C02" => (
             "exploration",
@@ -61,6 +83,7 @@ pub fn plan(prop: &str, tier: Tier) -> Option<Plan> {
             vec!["schedule part: sampled schedules under the operational memory model of DESIGN.md section 4.4".into(), "deprecated Arc::write / as_mut_slice and ThinArc::with_arc_mut gates are exercised by the thin/uninit engines".into()],
             {
                 let mut v = sized_jobs("C03", if q { 48 } else { 128 }, if q { 6000 } else { 100_000 }, both);
+                v.extend(thin_jobs("C03", if q { 40 } else { 128 }, if q { 3000 } else { 60_000 }, both));
                 v.push(job(SchedEngine::<Tok8>::new("C03", 24), if q { 50_000 } else { 2_000_000 }, "all"));
                 v.push(job(SchedEngine::<Tok8>::new("C03", 24), if q { 10_000 } else { 300_000 }, "nostd"));
                 v
@@ -87,6 +110,12 @@ pub fn plan(prop: &str, tier: Tier) -> Option<Plan> {
                 v.push(job(SchedEngine::<Tok8>::new("C09", 24), if q { 10_000 } else { 300_000 }, "nostd"));
                 v
             },
+        ),
+        "C10" => (
+            "exploration",
+            "proptest-generated histories over ThinArc<H,T> and every fat / protected / raw / unique / arc-swap view of the same allocations (header Tok + 0..8 element Toks; header alignment <, =, > element alignment), including fat Arcs whose recorded length is wrong (true+1, true-1, 0, true+1000, usize::MAX) fed to into_thin, and with_arc_mut callbacks that mutate, replace by a fresh Arc, swap with an existing one, or panic before/after replacing. After every step every slot is read element by element and compared (values, identities, addresses, recorded length, count, heap_ptr) with the model. Non-trivial: a thin and a fat/protected handle to one allocation of length >=2 compared element-wise, or an into_thin with a wrong recorded length, or a with_arc_mut that replaced the Arc.".into(),
+            vec!["element/header types are Tok witnesses; ZST elements are refused by the constructors (C06)".into()],
+            thin_jobs("C10", if q { 40 } else { 128 }, if q { 8000 } else { 150_000 }, both),
         ),
         _ => return None,
     };
